@@ -412,6 +412,8 @@ func propertyForFamily(f string) string {
 	case "life":
 		return "C05"
 	case "config":
+		return "C18"
+	case "cfgmerge":
 		return "C15"
 	case "embed":
 		return "C11"
